@@ -79,7 +79,7 @@ theorem sumOver_map {α β} (xs : List α) (g : α → β) (f : β → Nat) : su
   simp [sumOver, List.map_map]
 
 section
-variable (q : Nat) (D L : Nat) (po : Nat → List Nat) (cellsAt : Nat → List Nat) (b : Nat)
+variable (q : Nat) (D L : Nat) (po po' : Nat → List Nat) (cellsAt : Nat → List Nat) (b : Nat)
   (hnd : ∀ ℓ, (cellsAt ℓ).Nodup) (hb : ∀ ℓ, ℓ ≤ L → anc D L ℓ b ∈ cellsAt ℓ)
 
 include hnd hb
@@ -88,14 +88,14 @@ include hnd hb
 theorem m2m_level_step (ℓ : Nat) (hℓ : ℓ + 1 ≤ L) (cs : List Call) (hform : ∀ c ∈ cs, ∃ p ch, c = .m2m ℓ p ch)
     (helems : cs.flatMap elemsOfCall = (cellsAt (ℓ+1)).map fun c => Elem.m2m ℓ (parent D c) c (childCode D c))
     (s : State) (hs1 : ∀ i, s.m (ℓ+1) i = if i = anc D L (ℓ+1) b then 1 else 0) (hs0 : ∀ i, s.m ℓ i = 0) :
-    (∀ i, (applyCalls (wq q) L po po s cs).m ℓ i = if i = anc D L ℓ b then 1 else 0) ∧
-    (∀ lv i, lv ≠ ℓ → (applyCalls (wq q) L po po s cs).m lv i = s.m lv i) ∧
-    (∀ lv i, (applyCalls (wq q) L po po s cs).l lv i = s.l lv i) ∧ (∀ p, (applyCalls (wq q) L po po s cs).r p = s.r p) := by
-  obtain ⟨h1, h2, h3⟩ := phase_m2m (wq q) L po ℓ cs hform s
+    (∀ i, (applyCalls (wq q) L po po' s cs).m ℓ i = if i = anc D L ℓ b then 1 else 0) ∧
+    (∀ lv i, lv ≠ ℓ → (applyCalls (wq q) L po po' s cs).m lv i = s.m lv i) ∧
+    (∀ lv i, (applyCalls (wq q) L po po' s cs).l lv i = s.l lv i) ∧ (∀ p, (applyCalls (wq q) L po po' s cs).r p = s.r p) := by
+  obtain ⟨h1, h2, h3⟩ := phase_m2m (wq q) L po po' ℓ cs hform s
   refine ⟨?_, ?_, h2, h3⟩
   · intro i
     rw [h1, helems, sumOver_map, hs0, Nat.zero_add]
-    have e : sumOver (cellsAt (ℓ+1)) ((cM (wq q) L po s ℓ i) ∘ fun c => Elem.m2m ℓ (parent D c) c (childCode D c)) =
+    have e : sumOver (cellsAt (ℓ+1)) ((cM (wq q) L po' s ℓ i) ∘ fun c => Elem.m2m ℓ (parent D c) c (childCode D c)) =
         sumOver (cellsAt (ℓ+1)) (fun c => if c = anc D L (ℓ+1) b then (if parent D c = i then 1 else 0) else 0) := by
       apply sumOver_congr
       intro c _
@@ -111,7 +111,7 @@ theorem m2m_level_step (ℓ : Nat) (hℓ : ℓ + 1 ≤ L) (cs : List Call) (hfor
       simp [h, this]
   · intro lv i hne
     rw [h1, helems, sumOver_map]
-    have : sumOver (cellsAt (ℓ+1)) ((cM (wq q) L po s lv i) ∘ fun c => Elem.m2m ℓ (parent D c) c (childCode D c)) = 0 := by
+    have : sumOver (cellsAt (ℓ+1)) ((cM (wq q) L po' s lv i) ∘ fun c => Elem.m2m ℓ (parent D c) c (childCode D c)) = 0 := by
       apply sumOver_zero
       intro c _
       simp only [Function.comp, cM]
@@ -126,10 +126,10 @@ theorem m2m_pass (u : Nat) (css : Nat → List Call) (hform : ∀ ℓ, ∀ c ∈
     (helems : ∀ ℓ, u ≤ ℓ → ℓ < u + k → (css ℓ).flatMap elemsOfCall = (cellsAt (ℓ+1)).map fun c => Elem.m2m ℓ (parent D c) c (childCode D c))
     (s : State) (hs_hi : ∀ ℓ i, u + k ≤ ℓ → ℓ ≤ L → s.m ℓ i = if i = anc D L ℓ b then 1 else 0)
     (hs_lo : ∀ ℓ i, ℓ < u + k → s.m ℓ i = 0) :
-    (∀ ℓ i, u ≤ ℓ → ℓ ≤ L → (applyCalls (wq q) L po po s ((List.range' u k).reverse.flatMap css)).m ℓ i = if i = anc D L ℓ b then 1 else 0) ∧
-    (∀ ℓ i, ℓ < u → (applyCalls (wq q) L po po s ((List.range' u k).reverse.flatMap css)).m ℓ i = 0) ∧
-    (∀ lv i, (applyCalls (wq q) L po po s ((List.range' u k).reverse.flatMap css)).l lv i = s.l lv i) ∧
-    (∀ p, (applyCalls (wq q) L po po s ((List.range' u k).reverse.flatMap css)).r p = s.r p) := by
+    (∀ ℓ i, u ≤ ℓ → ℓ ≤ L → (applyCalls (wq q) L po po' s ((List.range' u k).reverse.flatMap css)).m ℓ i = if i = anc D L ℓ b then 1 else 0) ∧
+    (∀ ℓ i, ℓ < u → (applyCalls (wq q) L po po' s ((List.range' u k).reverse.flatMap css)).m ℓ i = 0) ∧
+    (∀ lv i, (applyCalls (wq q) L po po' s ((List.range' u k).reverse.flatMap css)).l lv i = s.l lv i) ∧
+    (∀ p, (applyCalls (wq q) L po po' s ((List.range' u k).reverse.flatMap css)).r p = s.r p) := by
   induction k generalizing s with
   | zero =>
     simp only [List.range'_zero, List.reverse_nil, List.flatMap_nil, applyCalls, List.foldl_nil]
@@ -137,9 +137,9 @@ theorem m2m_pass (u : Nat) (css : Nat → List Call) (hform : ∀ ℓ, ∀ c ∈
   | succ k ih =>
     rw [List.range'_concat, List.reverse_append, List.reverse_singleton, List.singleton_append, List.flatMap_cons, applyCalls_append]
     simp only [Nat.one_mul]
-    obtain ⟨a1, a2, a3, a4⟩ := m2m_level_step q D L po cellsAt b hnd hb (u + k) (by omega) (css (u+k)) (hform (u+k))
+    obtain ⟨a1, a2, a3, a4⟩ := m2m_level_step q D L po po' cellsAt b hnd hb (u + k) (by omega) (css (u+k)) (hform (u+k))
       (helems (u+k) (by omega) (by omega)) s (fun i => hs_hi (u+k+1) i (by omega) (by omega)) (fun i => hs_lo (u+k) i (by omega))
-    obtain ⟨b1, b2, b3, b4⟩ := ih (by omega) (fun ℓ h1 h2 => helems ℓ h1 (by omega)) (applyCalls (wq q) L po po s (css (u+k)))
+    obtain ⟨b1, b2, b3, b4⟩ := ih (by omega) (fun ℓ h1 h2 => helems ℓ h1 (by omega)) (applyCalls (wq q) L po po' s (css (u+k)))
       (by
         intro ℓ i h1 h2
         by_cases e : ℓ = u + k
